@@ -514,8 +514,11 @@ func (st *c04State) gradientOne(cbase, nbase, nstops, t int) {
 	st.z = render.Renderer{}
 	st.ras.Fresh()
 	st.rect = image.Rect(0, 0, 16, 16)
-	if (cbase+nbase)%2 == 1 {
+	switch (cbase + nbase) % 3 {
+	case 1:
 		st.rect = image.Rect(3, 7, 19, 23) // the same size elsewhere: the paint is relative to the rectangle
+	case 2:
+		st.rect = image.Rect(0, 0, 24, 16) // non-uniform scale
 	}
 	st.z.SetRasterizer(&st.ras, st.rect)
 	st.z.Reset(ivg.DefaultViewBox, ivg.DefaultPalette)
@@ -568,6 +571,25 @@ func (st *c04State) gradientOne(cbase, nbase, nstops, t int) {
 			return
 		}
 		back := rec.Call{M: rec.MSetCSel, Adj: gsel}
+		st.applyBoth(&back)
+		// the gradient path once more while the level-of-detail range excludes the raster (not
+		// drawn), then, with the range open again, a path filled with a flat colour from another register
+		follow = []rec.Call{{M: rec.MSetLOD, A: [6]float32{100, 200}}}
+		st.applyBoth(&follow[0])
+		if !st.probe(0, 16, func(key, what string) { fail("lod-excluded:"+key, what) }) {
+			return
+		}
+		follow = []rec.Call{
+			{M: rec.MSetLOD, A: [6]float32{0, pinfF}},
+			{M: rec.MSetCSel, Adj: uint8(cbase-3) & 63},
+			{M: rec.MSetCReg, C: rgba(0x10, 0x80, 0x30, 0xff)},
+		}
+		for i := range follow {
+			st.applyBoth(&follow[i])
+		}
+		if !st.probe(0, 16, func(key, what string) { fail("flat-after-excluded-gradient:"+key, what) }) {
+			return
+		}
 		st.applyBoth(&back)
 	}
 	// the paint is resolved when the path STARTS: change one register between two paths that
